@@ -566,11 +566,13 @@ func (f *frame) step(ins ssa.Instruction, b *ssa.BasicBlock, in map[*ssa.BasicBl
 	return false, nil
 }
 
+// symCells: symbolic (non-term) values stored in single-assignment cells (closures, tagged pointers).
+// The table belongs to one verification context and is shared by the frames of that context.
 func (f *frame) symCells() map[string]*Val {
-	if f.e.symCells == nil {
-		f.e.symCells = map[string]*Val{}
+	if f.symc == nil {
+		f.symc = map[string]*Val{}
 	}
-	return f.e.symCells
+	return f.symc
 }
 
 // edge passes control from b to succ under cond.
